@@ -130,41 +130,52 @@ theorem getGroupList_dictSet (c : Cont) (k : Str) (items : List Cont) (t : PyObj
   simp [getGroupList, h, lookup_dictSet_self]
 
 theorem addGroup_ok (c c' : Cont) (t : PyObj) (g : DItem) (i : Int) (h : addGroup c t g i = .ok c') :
-    ∃ old gc, g.toCont = .ok gc ∧
+    ∃ old gc, intLike t.pyStr = true ∧ g.toCont = .ok gc ∧
       ((lookup t.pyStr c = some (.group old)) ∨ (lookup t.pyStr c = none ∧ old = [])) ∧
       c' = dictSet t.pyStr (.group (groupAdd old gc i)) c := by
   simp only [addGroup] at h
   split at h
   · simp at h
-  · next gc hg =>
+  · next hi =>
+    have hi' : intLike t.pyStr = true := by simpa using hi
     split at h
-    · next items hl =>
-      simp only [Except.ok.injEq] at h
-      exact ⟨items, gc, hg, Or.inl hl, h.symm⟩
     · simp at h
-    · next hl =>
-      simp only [Except.ok.injEq] at h
-      exact ⟨[], gc, hg, Or.inr ⟨hl, rfl⟩, h.symm⟩
+    · next gc hg =>
+      split at h
+      · next items hl =>
+        simp only [Except.ok.injEq] at h
+        exact ⟨items, gc, hi', hg, Or.inl hl, h.symm⟩
+      · simp at h
+      · next hl =>
+        simp only [Except.ok.injEq] at h
+        exact ⟨[], gc, hi', hg, Or.inr ⟨hl, rfl⟩, h.symm⟩
 
 theorem setGroup_ok (c c' : Cont) (t : PyObj) (gs : List DItem) (h : setGroup c t gs = .ok c') :
-    ∃ items, buildItems gs = .ok items ∧ hasKey t.pyStr c = false ∧
+    ∃ items, intLike t.pyStr = true ∧ buildItems gs = .ok items ∧ hasKey t.pyStr c = false ∧
       c' = dictSet t.pyStr (.group items) c := by
   simp only [setGroup] at h
   split at h
   · simp at h
-  · next hk =>
+  · next hi =>
     split at h
     · simp at h
-    · next items hb =>
-      simp only [Except.ok.injEq] at h
-      exact ⟨items, hb, by simpa using hk, h.symm⟩
+    · next hk =>
+      split at h
+      · simp at h
+      · next items hb =>
+        simp only [Except.ok.injEq] at h
+        exact ⟨items, by simpa using hi, hb, by simpa using hk, h.symm⟩
 
 /-! ### get_group_by_index -/
+
+theorem byIndex_error (c : Cont) (t : PyObj) (i : Int) (k : Kind) (h : getGroupList c t = .error k) :
+    getGroupByIndex c t i = .error k := by
+  simp [getGroupByIndex, h]
 
 theorem byIndex_nonneg (c : Cont) (t : PyObj) (items : List Cont) (h : getGroupList c t = .ok items)
     (i : Nat) (hi : i < items.length) : getGroupByIndex c t (i : Int) = .ok items[i] := by
   simp only [getGroupByIndex, h]
-  have h1 : ¬ ((i : Int) ≥ (items.length : Int)) := by omega
+  have h1 : ¬ ((i : Int) ≥ (items.length : Int) ∨ (i : Int) < -(items.length : Int)) := by omega
   have h2 : ¬ ((i : Int) < 0) := by omega
   simp only [h1, h2, if_false]
   simp [List.getElem?_eq_getElem hi]
@@ -173,7 +184,7 @@ theorem byIndex_negative (c : Cont) (t : PyObj) (items : List Cont) (h : getGrou
     (j : Nat) (hj : 0 < j) (hj' : j ≤ items.length) :
     getGroupByIndex c t (-(j : Int)) = .ok (items[items.length - j]'(by omega)) := by
   simp only [getGroupByIndex, h]
-  have h1 : ¬ (-(j : Int) ≥ (items.length : Int)) := by omega
+  have h1 : ¬ (-(j : Int) ≥ (items.length : Int) ∨ -(j : Int) < -(items.length : Int)) := by omega
   have h2 : -(j : Int) < 0 := by omega
   have h3 : ¬ (-(j : Int) + (items.length : Int) < 0) := by omega
   simp only [h1, h2, h3, if_true, if_false]
@@ -183,20 +194,37 @@ theorem byIndex_negative (c : Cont) (t : PyObj) (items : List Cont) (h : getGrou
 theorem byIndex_high (c : Cont) (t : PyObj) (items : List Cont) (h : getGroupList c t = .ok items)
     (i : Int) (hi : (items.length : Int) ≤ i) : getGroupByIndex c t i = .error .tagNotFound := by
   simp only [getGroupByIndex, h]
-  have : i ≥ (items.length : Int) := hi
+  have : i ≥ (items.length : Int) ∨ i < -(items.length : Int) := Or.inl hi
   simp [this]
 
 theorem byIndex_low (c : Cont) (t : PyObj) (items : List Cont) (h : getGroupList c t = .ok items)
-    (i : Int) (hi : i < -(items.length : Int)) : getGroupByIndex c t i = .error .indexError := by
+    (i : Int) (hi : i < -(items.length : Int)) : getGroupByIndex c t i = .error .tagNotFound := by
   simp only [getGroupByIndex, h]
-  have h1 : ¬ (i ≥ (items.length : Int)) := by omega
-  have h2 : i < 0 := by omega
-  have h3 : i + (items.length : Int) < 0 := by omega
-  simp [h1, h2, h3]
+  have : i ≥ (items.length : Int) ∨ i < -(items.length : Int) := Or.inr hi
+  simp [this]
 
-theorem byIndex_error (c : Cont) (t : PyObj) (i : Int) (k : Kind) (h : getGroupList c t = .error k) :
-    getGroupByIndex c t i = .error k := by
-  simp [getGroupByIndex, h]
+/-- `get_group_by_index` never lets an IndexError escape -/
+theorem byIndex_no_indexError (c : Cont) (t : PyObj) (i : Int) : getGroupByIndex c t i ≠ .error .indexError := by
+  cases h : getGroupList c t with
+  | error k =>
+    rw [byIndex_error c t i k h]
+    intro e
+    simp only [Except.error.injEq] at e
+    subst e
+    simp only [getGroupList] at h
+    split at h <;> simp at h
+  | ok items =>
+    by_cases h1 : (items.length : Int) ≤ i
+    · rw [byIndex_high c t items h i h1]; simp
+    · by_cases h2 : i < -(items.length : Int)
+      · rw [byIndex_low c t items h i h2]; simp
+      · by_cases h3 : 0 ≤ i
+        · have := byIndex_nonneg c t items h i.toNat (by omega)
+          rw [show ((i.toNat : Nat) : Int) = i by omega] at this
+          rw [this]; simp
+        · have := byIndex_negative c t items h (-i).toNat (by omega) (by omega)
+          rw [show (-(((-i).toNat : Nat) : Int)) = i by omega] at this
+          rw [this]; simp
 
 /-! ### error kinds for missing / plain / group tags -/
 
